@@ -210,6 +210,10 @@ def _marks_key(ms):
 def node_tokens(schema, c, out):
     mk = _marks_key(c.get("marks"))
     if c["type"] == "text":
+        if not isinstance(c.get("text"), str):
+            # a node of the text type without text (only broken code builds one): keep it visible as a token of its own
+            out.append(("invalid-text-node", mk))
+            return out
         for u in units(c["text"]):
             out.append(("u", u, mk))
         return out
